@@ -255,6 +255,7 @@ def cells(tier, seed):
                     for st in (0, 1):
                         out.append({"kind": "ls", "method": method, "loss": "linear", "jac": jac, "x0type": rep, "x0start": st, "cat": k})
     out.extend(_wide_cells(q, shapes, regs, steps, k))
+    out.extend(_reuse_cells(q, shapes, k))
     # projections / prox
     ops = [("nonneg", None)] + [("box", bx) for bx in BOXES_T] + [("l1", g) for g in ([0.0] + L1_Q if q else L1_T + [0.5])]
     for d in (1, 2, 3):
@@ -510,6 +511,59 @@ def _funform(Aop):
     return fun
 
 
+# ----------------------------------------------------------------------------------------
+# integrity of the caller's argument objects
+# ----------------------------------------------------------------------------------------
+def _fp(obj):
+    """Fingerprint (type, dtype, shape, BYTES) of an array-like argument object; None / scalars / lists included."""
+    import scipy.sparse as sp
+    try:
+        if obj is None:
+            return ("None",)
+        if sp.issparse(obj):
+            parts = [type(obj).__name__, str(obj.dtype), tuple(obj.shape)]
+            for att in ("data", "indices", "indptr", "row", "col", "offsets"):
+                if hasattr(obj, att):
+                    v = np.asarray(getattr(obj, att))
+                    parts.append((att, v.dtype.str, v.shape, np.ascontiguousarray(v).tobytes()))
+            return tuple(parts)
+        if isinstance(obj, np.ndarray):
+            v = np.asarray(obj)
+            return (type(obj).__name__, v.dtype.str, v.shape, np.ascontiguousarray(v).tobytes())
+        if isinstance(obj, np.generic):
+            return (type(obj).__name__, obj.tobytes())
+        if isinstance(obj, (list, tuple)):
+            return (type(obj).__name__,) + tuple(_fp(t) for t in obj)
+        return (type(obj).__name__, repr(obj))
+    except Exception as e:      # an argument object that can no longer be read is an altered one
+        return ("unreadable", type(e).__name__)
+
+
+class _Guard:
+    """Byte snapshot of the argument objects handed to a solver (callables are skipped); altered() names the ones whose type,
+    dtype, shape or bytes differ afterwards."""
+
+    def __init__(self, **named):
+        self.named = {k: v for k, v in named.items() if not callable(v)}
+        self.snap = {k: _fp(v) for k, v in self.named.items()}
+
+    def altered(self):
+        return [k for k in sorted(self.named) if _fp(self.named[k]) != self.snap[k]]
+
+
+def _flag_altered(res, comp, guard, what="", seen=None):
+    """One violation `C16|<component>|argument-altered|arg=<name>` per argument object that solve() / the operator changed."""
+    res.evaluations += 1
+    for nm in guard.altered():
+        sig = "C16|%s|argument-altered|arg=%s" % (comp, nm)
+        if seen is not None:
+            if sig in seen:
+                continue
+            seen.add(sig)
+        res.fail(sig, "the caller's argument object `%s` was modified%s: its bytes / dtype / shape differ from the snapshot "
+                 "taken before the call" % (nm, (" (" + what + ")") if what else ""))
+
+
 def _P(name, n, k):
     import scipy.sparse as sp
     if name == "I":
@@ -563,17 +617,22 @@ def _eval_cg(cell, res):
             Aop = _store(A, cell["storage"])
             op = Aop if form == "matrix" else _funform(Aop)
             x0c = x0.copy()
+            bc = b.copy()
+            Pm = _P(cell["P"], n, k) if kind == "pcgls" else None
+            guard = _Guard(A=Aop, b=bc, P=Pm)
             res.state("%s:%s" % (form, cell["start"]))
             try:
                 if kind == "cgls":
-                    x, it = CGLS(op, b.copy(), x0c, maxit, tol, shift).solve()
+                    x, it = CGLS(op, bc, x0c, maxit, tol, shift).solve()
                 else:
-                    x, it = PCGLS(op, b.copy(), x0c, _P(cell["P"], n, k), maxit, tol, shift).solve()
+                    x, it = PCGLS(op, bc, x0c, Pm, maxit, tol, shift).solve()
             except Exception as e:
                 res.refused += 1
                 res.outcomes.add("raises:" + type(e).__name__)
                 res.fail("C16|%s|raises|%s,form=%s" % (name, base, form), "solver raised %r on a documented input" % (e,))
+                _flag_altered(res, name, guard, "%s form, start %s" % (form, cell["start"]))
                 continue
+            _flag_altered(res, name, guard, "%s form, start %s" % (form, cell["start"]))
             res.transitions += int(it)
             res.evaluations += 1
             x = np.asarray(x, float).ravel()
@@ -666,12 +725,15 @@ def _eval_cg_wide(cell, res):
             Aop = _store(A, cell["storage"])
             op = Aop if form == "matrix" else _funform(Aop)
             x0c = x0.copy()
+            bc = b.copy()
+            Pm = _P(cell["P"], n, k) if kind == "pcgls" else None
+            guard = _Guard(A=Aop, b=bc, P=Pm)
             res.state("%s:%s:%s" % (form, cell["start"], tag))
             try:
                 if kind == "cgls":
-                    x, it = CGLS(op, b.copy(), x0c, maxit, tol, shift).solve()
+                    x, it = CGLS(op, bc, x0c, maxit, tol, shift).solve()
                 else:
-                    x, it = PCGLS(op, b.copy(), x0c, _P(cell["P"], n, k), maxit, tol, shift).solve()
+                    x, it = PCGLS(op, bc, x0c, Pm, maxit, tol, shift).solve()
                 x = np.asarray(x, float).ravel()
                 it = int(it)
                 if x.shape != (n,):
@@ -681,7 +743,9 @@ def _eval_cg_wide(cell, res):
                 res.outcomes.add("raises:" + type(e).__name__)
                 res.fail("C16|%s|raises|%s" % (name, fac), "solver raised %r on a legal problem (%s, start %s, shift %g, %s form): the "
                          "statement promises the solution from any starting point" % (e, tag, cell["start"], shift, form))
+                _flag_altered(res, name, guard, "%s, %s form, start %s" % (tag, form, cell["start"]))
                 continue
+            _flag_altered(res, name, guard, "%s, %s form, start %s" % (tag, form, cell["start"]))
             res.transitions += it
             res.evaluations += 1
             sols[form] = x
@@ -746,10 +810,17 @@ def _eval_cg_rep(cell, res, A, b, x0, H, rhs, xref, scale, maxit, tol):
     name = "CGLS" if kind == "cgls" else "PCGLS"
     rc = _rep_class(rep)
 
-    def run(op, start):
-        if kind == "cgls":
-            return CGLS(op, b.copy(), start, maxit, tol, shift).solve()
-        return PCGLS(op, b.copy(), start, _P(cell["P"], n, k), maxit, tol, shift).solve()
+    def run(op, start, Aobj=None):
+        bc = b.copy()
+        Pm = _P(cell["P"], n, k) if kind == "pcgls" else None
+        guard = _Guard(A=Aobj, b=bc, P=Pm)
+        try:
+            if kind == "cgls":
+                return CGLS(op, bc, start, maxit, tol, shift).solve()
+            return PCGLS(op, bc, start, Pm, maxit, tol, shift).solve()
+        finally:
+            if Aobj is not None:
+                _flag_altered(res, name, guard, "%s start" % rep)
 
     bad = {}
     for form in ("matrix", "function"):
@@ -768,7 +839,7 @@ def _eval_cg_rep(cell, res, A, b, x0, H, rhs, xref, scale, maxit, tol):
             continue
         xobj = _as_rep(x0, rep)
         try:
-            x, it = run(op, xobj)
+            x, it = run(op, xobj, Aop)
         except Exception as e:
             res.refused += 1
             res.outcomes.add("%s:raises:%s" % (rc, type(e).__name__))
@@ -820,8 +891,8 @@ def _box(name, n):
         return None, None, np.zeros(n), np.ones(n)
     if name == "scalar":
         return -0.5, 0.75, -0.5 * np.ones(n), 0.75 * np.ones(n)
-    if name == "vector":
-        return lo_v, up_v, lo_v, up_v
+    if name == "vector":        # the objects handed to the library are copies: the oracle keeps the pristine ones
+        return lo_v.copy(), up_v.copy(), lo_v, up_v
     if name == "lower-only":
         return -1.0, None, -np.ones(n), np.ones(n)
     if name == "upper-only":
@@ -923,6 +994,7 @@ def _eval_fista(cell, res):
     x0 = _cell_start(cell, n, k)
     lam = 0.0
     lo = up = None
+    pargs = {}          # array-like objects handed to the projection at every iteration (guarded)
     if reg == "l1":
         lam = float(rp)
         prox = lambda z, g: ProximalL1(z, lam * g)
@@ -935,6 +1007,7 @@ def _eval_fista(cell, res):
         regname = "ProjectNonnegative"
     else:
         la, ua, lo, up = _box(rp, n)
+        pargs = {"lower": la, "upper": ua}
         prox = lambda z, g: ProjectBox(z, la, ua)
         ref_prox = lambda z: _ref_clip(z, lo, up)
         regname = "ProjectBox"
@@ -994,14 +1067,18 @@ def _eval_fista(cell, res):
                 continue
             cap = 10 * int(it64) + 1000
             xobj = _as_rep(x0, rep)
+            bc = b.copy()
+            guard = _Guard(A=Aop, b=bc, **pargs)
             try:
-                x, it = FISTA(op, b.copy(), xobj, prox, maxit=cap, stepsize=t, abstol=abstol, adaptive=adaptive).solve()
+                x, it = FISTA(op, bc, xobj, prox, maxit=cap, stepsize=t, abstol=abstol, adaptive=adaptive).solve()
             except Exception as e:
                 res.refused += 1
                 res.outcomes.add("%s:raises:%s" % (rc, type(e).__name__))
                 if not _may_refuse(rep):
                     res.fail("C16|FISTA|raises|x0=%s" % rc, "solver raised %r for a %s start vector" % (e, rep))
+                _flag_altered(res, "FISTA", guard, "%s, %s start" % (facet, rep))
                 continue
+            _flag_altered(res, "FISTA", guard, "%s, %s start" % (facet, rep))
             res.transitions += int(it)
             res.evaluations += 3
             if not _start_unchanged(xobj, x0, rep):
@@ -1047,8 +1124,10 @@ def _eval_fista(cell, res):
             op = Aop if form == "matrix" else _funform(Aop)
             res.state("%s:%s:%s" % (form, cell["start"], tag))
             x0c = x0.copy()
+            bc = b.copy()
+            guard = _Guard(A=Aop, b=bc, **pargs)
             try:
-                x, it = FISTA(op, b.copy(), x0c, prox, maxit=maxit, stepsize=t, abstol=abstol, adaptive=adaptive).solve()
+                x, it = FISTA(op, bc, x0c, prox, maxit=maxit, stepsize=t, abstol=abstol, adaptive=adaptive).solve()
                 x = np.asarray(x, float).ravel()
                 it = int(it)
                 if x.shape != (n,):
@@ -1058,7 +1137,9 @@ def _eval_fista(cell, res):
                 res.outcomes.add("raises:" + type(e).__name__)
                 res.fail("C16|FISTA|raises|%s" % wf, "solver raised %r on a legal problem (%s, %s, start %s, %s form)"
                          % (e, regname, tag, cell["start"], form))
+                _flag_altered(res, "FISTA", guard, "%s, %s, %s form" % (facet, tag, form))
                 continue
+            _flag_altered(res, "FISTA", guard, "%s, %s, %s form" % (facet, tag, form))
             res.transitions += it
             res.evaluations += 1
             sols[form] = x
@@ -1094,12 +1175,16 @@ def _eval_fista(cell, res):
         op = Aop if form == "matrix" else _funform(Aop)
         res.state("%s:%s" % (form, cell["start"]))
         x0c = x0.copy()
+        bc = b.copy()
+        guard = _Guard(A=Aop, b=bc, **pargs)
         try:
-            x, it = FISTA(op, b.copy(), x0c, prox, maxit=maxit, stepsize=t, abstol=abstol, adaptive=adaptive).solve()
+            x, it = FISTA(op, bc, x0c, prox, maxit=maxit, stepsize=t, abstol=abstol, adaptive=adaptive).solve()
         except Exception as e:
             res.refused += 1
             res.fail("C16|FISTA|raises|%s,form=%s" % (facet, form), "solver raised %r on a documented input" % (e,))
+            _flag_altered(res, "FISTA", guard, "%s, %s form" % (facet, form))
             continue
+        _flag_altered(res, "FISTA", guard, "%s, %s form" % (facet, form))
         res.transitions += int(it)
         res.evaluations += 1
         x = np.asarray(x, float).ravel()
@@ -1831,6 +1916,501 @@ def _eval_ls(cell, res):
 
 
 # ----------------------------------------------------------------------------------------
+# the SAME argument objects re-used across consecutive solves (histories of length 2 on one set of objects)
+# ----------------------------------------------------------------------------------------
+# (value of b, representation of b, representation of scalar parameters)
+REUSE_CTX_Q = [("cat", "float64", "scalar"), ("cat", "float64", "array"), ("int", "int64", "scalar"), ("int", "float32", "scalar")]
+REUSE_CTX_T = ([("cat", "float64", p) for p in ("scalar", "array")]
+               + [("int", r, p) for r in ("float64", "int64", "int32", "float32", "list", "CUQIarray") for p in ("scalar", "array")])
+REUSE_MAXIT_CG, REUSE_TOL_CG = 400, 1e-12
+
+
+def _reuse_alphabet(alpha, m, n):
+    """Solve steps that can be applied to one set of least-squares argument objects (A, b, x0, P, shift, bounds, ...)."""
+    q = alpha == "q"
+    steps = []
+    for form in ("matrix", "function"):
+        for shift in (0.0, 0.5):
+            steps.append({"solver": "CGLS", "form": form, "shift": shift})
+    for pinv in (("explicit",) if q else ("explicit", "solve")):
+        for form in ("matrix", "function"):
+            for shift in (0.0, 0.5):
+                steps.append({"solver": "PCGLS", "form": form, "shift": shift, "pinv": pinv})
+    for solver in (("ISTA",) if q else ("ISTA", "FISTA")):
+        if solver == "FISTA" and m < n:
+            continue        # momentum variant on the under-determined shape: 4e4 iterations per solve, not enumerated
+        for form in ("matrix", "function"):
+            for reg in ("l1", "box"):
+                steps.append({"solver": solver, "form": form, "reg": reg})
+    return steps
+
+
+def _reuse_families(alpha, m, n):
+    out = []
+    for st in _reuse_alphabet(alpha, m, n):
+        if st["solver"] not in out:
+            out.append(st["solver"])
+    return out
+
+
+def _step_key(st):
+    if "shift" in st:
+        return "%s/%s/s=%g%s" % (st["solver"], st["form"], st["shift"], ("/" + st["pinv"]) if "pinv" in st else "")
+    return "%s/%s/%s" % (st["solver"], st["form"], st["reg"])
+
+
+def _reuse_cells(q, shapes, k):
+    out = []
+    alpha = "q" if q else "t"
+    for (m, n) in shapes:
+        for storage in (("dense",) if q else ("dense", "sparse")):
+            for start in (("zero", "ones") if q else ("zero", "ones", "far")):
+                for (bval, brep, par) in (REUSE_CTX_Q if q else REUSE_CTX_T):
+                    for first in _reuse_families(alpha, m, n):
+                        out.append({"kind": "reuse", "fam": "lsq", "m": m, "n": n, "storage": storage, "start": start, "bval": bval,
+                                    "brep": brep, "par": par, "first": first, "alpha": alpha, "cat": k})
+    for prob in (("expfit", "quadpert") if q else ("expfit", "quadpert", "rosenbrock")):
+        for start in (0, 1):
+            out.append({"kind": "reuse", "fam": "lm", "prob": prob, "start": start, "cat": k})
+    for first in range(len(_wrap_alphabet())):
+        for x0val in ("dyadic", "zero"):
+            out.append({"kind": "reuse", "fam": "wrap", "first": first, "x0val": x0val, "n": 3, "cat": k})
+    return out
+
+
+def _eval_reuse_lsq(cell, res):
+    """One set of argument objects (A dense/sparse and the function form built on it, b, x0, preconditioner, shift values,
+    step size, L1 threshold vector, box bounds) is handed to TWO consecutive solves s1 -> s2, for every s1 of the cell's
+    solver family and every s2 of the whole alphabet (and s1 -> the same solver object solved again).  Oracle: after every
+    solve each argument object has the bytes it had before (argument-altered|arg=..), and the point returned by s2 satisfies
+    the dense optimality system of s2's problem evaluated from the harness's own PRISTINE copies of A and b - reported when
+    the very same step on fresh, equal objects passes (so that it is the history that matters) - and agrees with that
+    fresh run.  Every step is also judged as a FIRST solve (fresh objects): facet b-representation (float64 / integer /
+    float32 / list / CUQIarray; integer-valued b) and parameter representation (python scalars / arrays)."""
+    import cuqi
+    from cuqi.solver._solver import CGLS, PCGLS, FISTA, ProximalL1, ProjectBox
+    m, n, k = cell["m"], cell["n"], cell["cat"]
+    storage, brep, par = cell["storage"], cell["brep"], cell["par"]
+    A = refs.full_matrix(m, n, k)
+    bf = refs.dyadic_vec(m, k + 1) if cell["bval"] == "cat" else refs.dyadic_vec(m, k + 1, scale=1.0)   # 'int': integer valued
+    x0 = _start(cell["start"], n, k)
+    arr = par == "array"
+    t = 0.99 / float(np.linalg.svd(A, compute_uv=False)[0] ** 2)
+    lam = 1.0
+    _, _, lo, up = _box("vector", n)
+    rhs = A.T @ bf
+    scale = max(1.0, float(np.linalg.norm(rhs)))
+    rc = _rep_class(brep)
+    ffac = "b=%s%s" % (rc, ",par=array" if arr else "")
+    strict = brep == "float64" and not arr       # documented representations: a raise is a violation
+    pgref = {}
+
+    def pg_ref(reg):
+        if reg not in pgref:
+            pgref[reg] = _exact_min(A, bf, "l1" if reg == "l1" else "box", lam if reg == "l1" else 0.0, lo, up)
+        return pgref[reg]
+
+    def make():
+        o = {"A": _store(A, storage), "b": _as_rep(bf, brep), "x0": x0.copy(), "P": _P("lowertri", n, k),
+             "shift0": np.array(0.0) if arr else 0.0, "shift": np.array(0.5) if arr else 0.5,
+             "stepsize": np.array(t) if arr else t, "gamma": np.full(n, lam * t) if arr else None,
+             "lower": lo.copy(), "upper": up.copy()}
+        o["fun"] = _funform(o["A"])
+        return o
+
+    def guard_of(o):
+        return _Guard(**{kk: v for kk, v in o.items() if kk != "fun"})
+
+    def comp(st):
+        return "FISTA" if st["solver"] in ("ISTA", "FISTA") else st["solver"]
+
+    def build(st, o):
+        op = o["A"] if st["form"] == "matrix" else o["fun"]
+        if st["solver"] == "CGLS":
+            return CGLS(op, o["b"], o["x0"], REUSE_MAXIT_CG, REUSE_TOL_CG, o["shift"] if st["shift"] else o["shift0"])
+        if st["solver"] == "PCGLS":
+            old = cuqi.config.MAX_DIM_INV
+            try:
+                if st["pinv"] == "solve":
+                    cuqi.config.MAX_DIM_INV = 1
+                return PCGLS(op, o["b"], o["x0"], o["P"], REUSE_MAXIT_CG, REUSE_TOL_CG, o["shift"] if st["shift"] else o["shift0"])
+            finally:
+                cuqi.config.MAX_DIM_INV = old
+        adaptive = st["solver"] == "FISTA"
+        if st["reg"] == "l1":
+            prox = (lambda z, g: ProximalL1(z, o["gamma"])) if arr else (lambda z, g: ProximalL1(z, lam * g))
+        else:
+            prox = lambda z, g: ProjectBox(z, o["lower"], o["upper"])
+        return FISTA(op, o["b"], o["x0"], prox, maxit=_pg_maxit(st), stepsize=o["stepsize"], abstol=1e-9 if adaptive else 1e-11,
+                     adaptive=adaptive)
+
+    def run(st, o, solver=None):
+        """('ok', x, it, solver) or ('raised', exception, None, solver)"""
+        try:
+            if solver is None:
+                solver = build(st, o)
+            x, it = solver.solve()
+            return "ok", x, int(it), solver
+        except Exception as e:
+            return "raised", e, None, solver
+
+    def judge(st, x, it):
+        """None (passes), 'maxit' (prox-gradient run that reached maxit: counted only) or (operation, message)."""
+        try:
+            xa = np.asarray(x, float).ravel()
+            if xa.shape != (n,):
+                raise ValueError("shape %s" % (xa.shape,))
+        except Exception as e:
+            return ("result-unusable", "returned object unusable as a vector: %r" % (e,)), None
+        if st["solver"] in ("CGLS", "PCGLS"):
+            shift = st["shift"]
+            H = A.T @ A + shift * np.eye(n)
+            if it >= REUSE_MAXIT_CG:
+                return ("no-convergence", "did not meet its own stopping rule within %d iterations" % REUSE_MAXIT_CG), xa
+            rn = float(np.linalg.norm(rhs - H @ xa)) if np.all(np.isfinite(xa)) else float("inf")
+            if not rn <= 1e-7 * max(scale, float(np.linalg.norm(H @ xa))):
+                return ("normal-equations", "stopped after %d iterations but ||A^T(b-Ax)-s x|| = %.3g (scale %.3g) with the pristine "
+                        "A, b; x=%s" % (it, rn, scale, np.round(xa, 6).tolist())), xa
+            if (m >= n or shift > 0) and not close(xa, np.linalg.solve(H, rhs), 1e-7):
+                return ("normal-equations", "returned point differs from the dense solution of the normal equations"), xa
+            return None, xa
+        if it >= _pg_maxit(st):
+            return "maxit", xa
+        return _pg_judge(A, bf, st["reg"], lam, lo, up, t, pg_ref(st["reg"]), xa), xa
+
+    alphabet = _reuse_alphabet(cell["alpha"], m, n)
+    own = [s for s in alphabet if s["solver"] == cell["first"]]
+    seen = set()
+
+    def fail(sig, msg, **kw):
+        if sig not in seen:
+            seen.add(sig)
+            res.fail(sig, msg, **kw)
+
+    # ---- (1) every step as the first solve on fresh argument objects
+    fresh = {}
+    for st in alphabet:
+        key = _step_key(st)
+        o = make()
+        g = guard_of(o)
+        status, x, it, _ = run(st, o)
+        mine = st in own
+        if mine:
+            res.state("%s|%s|%s" % (key, brep, par))
+            res.traces += 1
+            _flag_altered(res, comp(st), g, "%s, start %s, %s b" % (key, cell["start"], brep), seen)
+        if status == "raised":
+            fresh[key] = ("raised", None)
+            if mine:
+                res.refused += 1
+                res.outcomes.add("first:%s:raises:%s" % (st["solver"], type(x).__name__))
+                if strict:
+                    fail("C16|%s|raises|%s" % (comp(st), ffac), "%s raised %r on a documented input (start %s)" % (key, x, cell["start"]))
+            continue
+        v, xa = judge(st, x, it)
+        fresh[key] = ("maxit" if v == "maxit" else ("ok" if v is None else "bad"), xa)
+        if not mine:
+            continue
+        res.transitions += it
+        res.evaluations += 1
+        res.outcomes.add("first:%s:%s:%s" % (st["solver"], rc, fresh[key][0]))
+        if v == "maxit":
+            res.count("maxit-reached")
+        elif v is None:
+            res.count("first-solve-converged")
+        else:
+            fail("C16|%s|%s|%s" % (comp(st), v[0], ffac), "%s, %s b (%s-valued), %s parameters, start %s: %s"
+                 % (key, brep, "integer" if cell["bval"] == "int" else "dyadic", par, cell["start"], v[1]), x=xa)
+
+    # ---- (2) histories on ONE set of argument objects: s1 -> solve() again; s1 -> s2
+    for s1 in own:
+        k1 = _step_key(s1)
+        hist = [("again", s1)] + [("next", s2) for s2 in alphabet]
+        for (mode, s2) in hist:
+            k2 = _step_key(s2)
+            res.traces += 1
+            o = make()
+            g1 = guard_of(o)
+            st1, x1, it1, solver1 = run(s1, o)
+            _flag_altered(res, comp(s1), g1, "%s, start %s" % (k1, cell["start"]), seen)
+            if st1 == "ok":
+                res.transitions += it1
+            if mode == "again" and solver1 is None:
+                continue
+            g2 = guard_of(o)
+            st2, x2, it2, _ = run(s2, o, solver1 if mode == "again" else None)
+            hname = "%s>%s" % (k1, "solve-again" if mode == "again" else k2)
+            res.state("%s|%s|%s" % (hname, brep, par))
+            _flag_altered(res, comp(s2), g2, "history %s, start %s" % (hname, cell["start"]), seen)
+            # one signature per (second solver, history kind): which optimality condition fails is said in the message
+            hsig = "C16|%s|%s" % (comp(s2), "solve-called-twice|same-solver-object" if mode == "again" else "reused-arguments|after=%s" % s1["solver"])
+            f_status, f_x = fresh[k2]
+            if st2 == "raised":
+                res.refused += 1
+                res.outcomes.add("%s:raises:%s" % (mode, type(x2).__name__))
+                if f_status != "raised" and st1 == "ok":
+                    fail(hsig, "history %s on one set of argument objects (start %s, %s b): the second "
+                         "solve raised %r; the same solve on fresh, equal objects returns" % (hname, cell["start"], brep, x2))
+                continue
+            res.transitions += it2
+            res.evaluations += 2
+            v, xa = judge(s2, x2, it2)
+            if v == "maxit":
+                res.count("maxit-reached")
+                continue
+            if v is not None:
+                res.outcomes.add("%s:%s:bad" % (mode, s2["solver"]))
+                if f_status == "ok":
+                    fail(hsig, "history %s on one set of argument objects (A, b, x0, ... ; start %s, %s b): the second solve fails "
+                         "the optimality system evaluated with the pristine copies of A and b although the same solve on fresh, equal "
+                         "objects passes: %s: %s" % (hname, cell["start"], brep, v[0], v[1]), x=xa, x_fresh=f_x)
+                continue
+            res.count("second-solve-converged")
+            res.outcomes.add("%s:%s>%s:ok" % (mode, s1["solver"], s2["solver"]))
+            if f_status == "ok" and not close(xa, f_x, 1e-7):
+                fail(hsig, "history %s (start %s): the returned point differs from the one "
+                     "the same solve returns on fresh, equal argument objects" % (hname, cell["start"]), x=xa, x_fresh=f_x)
+    if res.branches.get("second-solve-converged", 0) == 0:
+        res.nontrivial = False
+    res.sample = {"first_family": cell["first"], "alphabet": [_step_key(s) for s in alphabet], "b": bf, "b_representation": brep}
+
+
+def _pg_maxit(st):
+    return 200000 if st["solver"] == "FISTA" else 50000
+
+
+def _pg_judge(A, b, reg, lam, lo, up, t, ref, x):
+    """None, or (operation, message): first optimality condition of min 1/2||Ax-b||^2 + regulariser (L1 with strength lam /
+    indicator of the box [lo, up]) that the point x violates: prox-gradient fixed point, KKT system, enumerated exact minimiser."""
+    (xs, Fs), F = ref
+    m, n = A.shape
+    if not np.all(np.isfinite(x)):
+        return "fixed-point", "returned point is not finite"
+    g = A.T @ (A @ x - b)
+    px = _ref_soft(x - t * g, lam * t) if reg == "l1" else _ref_clip(x - t * g, lo, up)
+    fp = float(np.linalg.norm(x - px))
+    if fp > 1e-7 * max(1.0, float(np.max(np.abs(x)))):
+        return "fixed-point", "||x - prox(x - t A^T(Ax-b))|| = %.3g" % fp
+    kt = 1e-6 * max(1.0, float(np.max(np.abs(g))))
+    if reg == "l1":
+        nz = np.abs(x) > 1e-7
+        viol = max([0.0] + list(np.abs(g[nz] + lam * np.sign(x[nz]))) + list(np.maximum(np.abs(g[~nz]) - lam, 0)))
+        feas = True
+    else:
+        feas = bool(np.all(x >= lo - 1e-9) and np.all(x <= up + 1e-9))
+        atlo = np.abs(x - lo) <= 1e-7
+        atup = np.abs(x - up) <= 1e-7
+        free = ~atlo & ~atup
+        viol = max([0.0] + list(np.abs(g[free])) + list(np.maximum(-g[atlo & ~atup], 0)) + list(np.maximum(g[atup & ~atlo], 0)))
+    if not feas or viol > kt:
+        return "kkt", "returned point violates the optimality system (feasible=%s, KKT violation %.3g)" % (feas, viol)
+    Fx = F(x)
+    if Fx > Fs + 1e-8 * (1 + abs(Fs)):
+        return "not-a-minimiser", "objective %.12g at the returned point > %.12g at the enumerated minimiser" % (Fx, Fs)
+    if m >= n and not close(x, xs, 1e-6):
+        return "not-a-minimiser", "strictly convex problem: returned point differs from the enumerated unique minimiser"
+    return None
+
+
+def _eval_reuse_lm(cell, res):
+    """LM: the same start object handed to two consecutive solves (documented sparse/Jacobian pairs, all ordered pairs) and one
+    solver object solved twice; every returned point must be stationary (as in the base cells) and agree with the run on a fresh
+    start object; the start object keeps its bytes."""
+    import scipy.sparse as sp
+    from cuqi.solver import LM
+    k = cell["cat"]
+    r, J, starts = _lm_problem(cell["prob"], k)
+    x0 = np.asarray(starts[cell["start"]], float)
+    g0n = max(1.0, float(np.linalg.norm(J(x0).T @ r(x0))))
+    maxit = 3000
+    alphabet = [(True, "csr"), (False, "dense")]
+    seen = set()
+
+    def build(st, xobj):
+        jac = (lambda x: sp.csr_matrix(J(x))) if st[1] == "csr" else J
+        return LM(r, xobj, jac, maxit=maxit, tol=1e-12, gradtol=1e-9, sparse=st[0])
+
+    def run(st, xobj, solver=None):
+        try:
+            if solver is None:
+                solver = build(st, xobj)
+            x, info = solver.solve()
+            return "ok", np.asarray(x, float).ravel(), info, solver
+        except Exception as e:
+            return "raised", e, None, solver
+
+    def judge(x, info):
+        it = int(info["nfev"])
+        if it >= maxit:
+            return "maxit"
+        if x.shape != x0.shape or not np.all(np.isfinite(x)):
+            return ("stationarity", "returned point %s is not a finite vector of the right shape" % (x.tolist(),))
+        gn = float(np.linalg.norm(J(x).T @ r(x)))
+        if gn > 1e-7 * g0n:
+            return ("stationarity", "stopped after %d<maxit iterations but ||J^T r|| = %.3g (initially %.3g)" % (it, gn, g0n))
+        try:
+            rf = np.asarray(info["func"], float).ravel()
+            Jf = info["Jac"]
+            Jf = np.asarray(Jf.todense()) if hasattr(Jf, "todense") else np.asarray(Jf, float)
+            if not close(rf, r(x), 1e-9) or not close(Jf, J(x), 1e-9):
+                return ("info", "info['func']/info['Jac'] are not the residual/Jacobian at the returned point")
+        except Exception as e:
+            return ("info", "info unusable: %r" % (e,))
+        return None
+
+    fresh = {}
+    for st in alphabet:
+        status, x, info, _ = run(st, x0.copy())
+        fresh[st] = (("ok" if judge(x, info) is None else "other"), x) if status == "ok" else ("raised", None)
+    for s1 in alphabet:
+        for (mode, s2) in [("again", s1)] + [("next", s2) for s2 in alphabet]:
+            res.traces += 1
+            xobj = x0.copy()
+            g = _Guard(x0=xobj)
+            st1, x1, info1, solver1 = run(s1, xobj)
+            _flag_altered(res, "LM", g, "sparse=%s,jac=%s" % s1, seen)
+            if st1 == "ok":
+                res.transitions += int(info1["nfev"])
+            if mode == "again" and solver1 is None:
+                continue
+            st2, x2, info2, _ = run(s2, xobj, solver1 if mode == "again" else None)
+            hname = "sparse=%s,jac=%s>%s" % (s1[0], s1[1], "solve-again" if mode == "again" else "sparse=%s,jac=%s" % s2)
+            res.state(hname)
+            _flag_altered(res, "LM", g, "history " + hname, seen)
+            hfac = "solve-called-twice|same-solver-object" if mode == "again" else "reused-arguments|start-object"
+            f_status, f_x = fresh[s2]
+            if st2 == "raised":
+                res.refused += 1
+                if f_status != "raised" and st1 == "ok" and hfac not in seen:
+                    seen.add(hfac)
+                    res.fail("C16|LM|%s" % hfac, "history %s on one start object: the second solve raised %r; the same solve "
+                             "from a fresh, equal start object returns" % (hname, x2))
+                continue
+            res.transitions += int(info2["nfev"])
+            res.evaluations += 2
+            v = judge(x2, info2)
+            if v == "maxit":
+                res.count("maxit-reached")
+                continue
+            if v is not None:
+                if f_status == "ok" and hfac not in seen:
+                    seen.add(hfac)
+                    res.fail("C16|LM|%s" % hfac, "history %s on one start object %s: %s: %s (the same solve from a fresh, equal "
+                             "start object passes)" % (hname, x0.tolist(), v[0], v[1]), x=x2, x_fresh=f_x)
+                continue
+            res.count("second-solve-converged")
+            res.outcomes.add("%s:%s:it=%d" % (cell["prob"], hname, int(info2["nfev"])))
+            if f_status == "ok" and not close(x2, f_x, 1e-6) and hfac not in seen:
+                seen.add(hfac)
+                res.fail("C16|LM|%s" % hfac, "history %s: the returned point differs from the one reached from a "
+                         "fresh, equal start object" % hname, x=x2, x_fresh=f_x)
+    if res.branches.get("second-solve-converged", 0) == 0:
+        res.nontrivial = False
+
+
+def _wrap_alphabet():
+    return [("L_BFGS_B", "none"), ("L_BFGS_B", "bounds"), ("minimize", "L-BFGS-B+bounds"), ("minimize", "BFGS"), ("maximize", "BFGS")]
+
+
+def _eval_reuse_wrap(cell, res):
+    """SciPy wrappers: one start object and one bounds ARRAY (n x 2 ndarray) handed to two consecutive wrapper solves (first step =
+    the cell's, second = every step of the alphabet, plus the same wrapper object solved twice).  Oracle: the second solve
+    returns what the direct SciPy call with pristine, equal arguments returns; start and bounds objects keep their bytes."""
+    import cuqi
+    import scipy.optimize as opt
+    from scipy.optimize import fmin_l_bfgs_b
+    from cuqi.solver import L_BFGS_B
+    n, k = cell["n"], cell["cat"]
+    f, g = _objective(n, k)
+    x0 = _wrapper_start(cell, n, k)
+    bnd = np.array([(-0.25, 0.5)] * n)
+    alphabet = _wrap_alphabet()
+    seen = set()
+
+    def ref(st):
+        if st == ("L_BFGS_B", "none"):
+            return fmin_l_bfgs_b(f, x0.copy(), fprime=g, approx_grad=0)[0]
+        if st == ("L_BFGS_B", "bounds"):
+            return fmin_l_bfgs_b(f, x0.copy(), fprime=g, approx_grad=0, bounds=bnd.copy())[0]
+        if st == ("minimize", "L-BFGS-B+bounds"):
+            return opt.minimize(f, x0.copy(), jac=g, method="L-BFGS-B", bounds=bnd.copy()).x
+        return opt.minimize(f, x0.copy(), jac=g, method="BFGS").x
+
+    def build(st, xobj, bobj):
+        if st == ("L_BFGS_B", "none"):
+            return L_BFGS_B(f, xobj, gradfunc=g)
+        if st == ("L_BFGS_B", "bounds"):
+            return L_BFGS_B(f, xobj, gradfunc=g, bounds=bobj)
+        if st == ("minimize", "L-BFGS-B+bounds"):
+            return cuqi.solver.minimize(f, xobj, gradfunc=g, method="L-BFGS-B", bounds=bobj)
+        if st == ("minimize", "BFGS"):
+            return cuqi.solver.minimize(f, xobj, gradfunc=g, method="BFGS")
+        return cuqi.solver.maximize(lambda x: -f(x), xobj, gradfunc=lambda x: -g(x), method="BFGS")
+
+    def run(st, xobj, bobj, solver=None):
+        try:
+            if solver is None:
+                solver = build(st, xobj, bobj)
+            x, info = solver.solve()
+            return "ok", np.asarray(x, float), solver
+        except Exception as e:
+            return "raised", e, solver
+
+    refs_ = {}
+    for st in alphabet:
+        try:
+            refs_[st] = np.asarray(ref(st), float)
+        except Exception:
+            refs_[st] = None        # SciPy itself refuses: nothing to compare
+    s1 = alphabet[cell["first"]]
+    for (mode, s2) in [("again", s1)] + [("next", s2) for s2 in alphabet]:
+        res.traces += 1
+        xobj, bobj = x0.copy(), bnd.copy()
+        gd = _Guard(x0=xobj, bounds=bobj)
+        st1, x1, solver1 = run(s1, xobj, bobj)
+        _flag_altered(res, s1[0], gd, "%s(%s)" % s1, seen)
+        res.transitions += 1
+        if mode == "again" and solver1 is None:
+            continue
+        st2, x2, _ = run(s2, xobj, bobj, solver1 if mode == "again" else None)
+        hname = "%s(%s)>%s" % (s1[0], s1[1], "solve-again" if mode == "again" else "%s(%s)" % s2)
+        res.state(hname)
+        res.transitions += 1
+        _flag_altered(res, s2[0], gd, "history " + hname, seen)
+        hfac = "solve-called-twice|same-solver-object" if mode == "again" else "reused-arguments|start-and-bounds-objects"
+        if refs_[s2] is None:
+            res.count("scipy-refuses")
+            continue
+        if st2 == "raised":
+            res.refused += 1
+            if st1 == "ok" and ("raises", s2[0]) not in seen:
+                seen.add(("raises", s2[0]))
+                res.fail("C16|%s|%s" % (s2[0], hfac), "history %s on one start / bounds object: the second solve raised %r where "
+                         "the direct SciPy call with equal arguments returns" % (hname, x2))
+            continue
+        res.evaluations += 1
+        res.count("second-solve-returned")
+        res.outcomes.add(hname)
+        if not _same(x2, refs_[s2]) and ("x", s2[0]) not in seen:
+            seen.add(("x", s2[0]))
+            res.fail("C16|%s|%s" % (s2[0], hfac), "history %s on one start / bounds object: the second solve returns %s, the direct "
+                     "SciPy call with pristine equal arguments %s" % (hname, np.asarray(x2).tolist(), refs_[s2].tolist()))
+    if res.branches.get("second-solve-returned", 0) == 0:
+        res.nontrivial = False
+
+
+def _eval_reuse(cell, res):
+    if cell["fam"] == "lsq":
+        _eval_reuse_lsq(cell, res)
+    elif cell["fam"] == "lm":
+        _eval_reuse_lm(cell, res)
+    elif cell["fam"] == "wrap":
+        _eval_reuse_wrap(cell, res)
+    else:
+        raise ValueError(cell["fam"])
+
+
+# ----------------------------------------------------------------------------------------
 # projections and soft-thresholding on a complete lattice
 # ----------------------------------------------------------------------------------------
 def _lattice(d, fine):
@@ -1947,6 +2527,8 @@ def eval_cell(cell):
         _eval_ls(cell, res)
     elif kind == "prox":
         _eval_prox(cell, res)
+    elif kind == "reuse":
+        _eval_reuse(cell, res)
     else:
         raise ValueError(kind)
     return res
